@@ -191,6 +191,12 @@ def history(draw):
             })
         rounds.append({
             'ops': ops,
+            # a (non-incremental) update of one sub-directory on both copies
+            # before the two whole-tree updates are compared
+            'partial': draw(st.sampled_from([None, None, None] + dirs[1:])),
+            # the incremental update names a second, unrelated tree (with a
+            # younger TIMESTAMP) after this one
+            'decoy': draw(st.integers(0, 3)) == 0,
             'advance': draw(st.sampled_from([0.1, 0.3, 0.5, 1, 2, 60, 3600, 19800,
                                              28800, 43200, 50400, 100000])),
         })
@@ -227,10 +233,12 @@ def write_file(root, path, content, mtime):
     os.utime(full, (mtime, mtime))
 
 
-def run_cli(root, clock, tz, args, on_data_open=None):
+def run_cli(root, clock, tz, args, on_data_open=None, sub=None, more=()):
     clock.first_scan = None
     with TimeEnv(clock, tz, root, on_data_open) as env:
-        oc, records, _ = gem.cli(args + ['--hashes', HASHES, root])
+        oc, records, _ = gem.cli(args + ['--hashes', HASHES] + (
+            [os.path.join(root, s) for s in sub] if sub else [root])
+            + list(more))
     return oc, env
 
 
@@ -384,9 +392,33 @@ def run_case(desc):
                     for r in (A, B):
                         os.utime(os.path.join(r, p), (m, m))
                     classes.append('touch')
+            part = rnd.get('partial')
+            if part and os.path.isdir(os.path.join(A, part)):
+                for r in (A, B):
+                    clocks[r].now = now
+                    oc, env = run_cli(r, clocks[r], tz, ['update'],
+                                      sub=[part])
+                    if oc.kind != 'return' or oc.value != 0:
+                        return violation(
+                            f'round {ri}: `gemato update <tree>/{part}` '
+                            f'failed: {oc.describe()}',
+                            sig='update-failed', classes=classes)
+                now = max(clocks[A].now, clocks[B].now) + 1.5
+                classes.append('partial-update-first')
+            more = {A: (), B: ()}
+            if rnd.get('decoy'):
+                D = os.path.join(base, f'decoy{ri}')
+                os.mkdir(D)
+                write_file(D, 'only', 'x', now - 5)
+                dclock = Clock(now)
+                oc, env = run_cli(D, dclock, tz, ['create', '-t'])
+                if oc.kind == 'return' and oc.value == 0:
+                    more[A] = (D,)
+                    now = max(now, dclock.now) + 1.5
+                    classes.append('second-tree-in-the-same-invocation')
             for r, args in ((A, ['update', '-i']), (B, ['update'])):
                 clocks[r].now = now
-                oc, env = run_cli(r, clocks[r], tz, args)
+                oc, env = run_cli(r, clocks[r], tz, args, more=more[r])
                 if oc.kind != 'return' or oc.value != 0:
                     return violation(
                         f'round {ri}: `gemato {" ".join(args)}` failed: '
